@@ -63,10 +63,10 @@ class Engine:
 
     def call(self, what, fn):
         try:
-            with time_limit(20):
+            with time_limit(30):
                 return True, fn()
         except CaseTimeout:
-            self.flag(what + "-does-not-terminate", "no return within 20 s")
+            self.flag(what + "-does-not-terminate", "no return within 30 s")
         except Exception as e:  # noqa
             self.flag(f"{what}-raises:{type(e).__name__}", f"{type(e).__name__}: {e}"[:300])
         return False, None
